@@ -28,6 +28,31 @@ int seam_selftest_racy_counter(int reps) {
     return counter - expected;     // 0 iff no update was lost
 }
 
+// The same lost update inside a `schedule(dynamic,1)` loop (chunks are handed out through the runtime's shared counter):
+// must be caught as well.  `seam_selftest_dynamic_sum` is the race-free counterpart: every iteration writes its own slot,
+// whichever thread gets which chunk, so every schedule must give the same output.
+int seam_selftest_racy_counter_dynamic(int n) {
+    volatile int counter = 0;
+    #pragma omp parallel for schedule(dynamic, 1)
+    for (int k = 0; k < n; k++) {
+        int v = counter;
+        counter = v + 1;
+    }
+    return counter - n;
+}
+int seam_selftest_dynamic_sum(int n, int* out) {
+    #pragma omp parallel
+    {
+        #pragma omp for schedule(dynamic, 2)
+        for (int k = 0; k < n; k++) out[k] = k * k + 1;
+        #pragma omp for schedule(guided)
+        for (int k = 0; k < n; k++) out[k] += k;
+    }
+    int s = 0;
+    for (int k = 0; k < n; k++) s += out[k];
+    return s;
+}
+
 void seam_sasa(int n_frames, int n_atoms, const float* xyz, const float* radii, int n_sphere_points,
                const int* atom_mapping, const int* selection_mask, int n_groups, float* out) {
     sasa(n_frames, n_atoms, xyz, radii, n_sphere_points, atom_mapping, selection_mask, n_groups, out);
